@@ -435,6 +435,13 @@ class Stacker(Transformer):
         # Check if data to be transformed has the same feature coordinates as the data used to fit the stacker
         self._validate_transform_feature_coords(X)
 
+        # The variables of a Dataset are matched by name: bring them into the order
+        # they had during fit (the stacked feature axis follows the variable order)
+        if isinstance(X, xr.Dataset) and self.var_dims:
+            by_name = {str(name): name for name in X.data_vars}
+            if all(name in by_name for name in self.var_dims):
+                X = X[[by_name[name] for name in self.var_dims]]
+
         # Stack data
         sample_dims = self.dims_mapping[self.sample_name]
         feature_dims = self.dims_mapping[self.feature_name]
